@@ -213,10 +213,12 @@ impl<F> FnGraph<F> {
         }
 
         stream::poll_fn(move |context| {
-            match fn_done_rx.poll_recv(context) {
-                Poll::Pending => {}
-                Poll::Ready(None) => {}
-                Poll::Ready(Some(fn_id)) => graph_structure
+            // Drain every done notification: each `FnRef` drop sends one, and the waker is only
+            // registered by a `poll_recv` that returns `Pending`. Handling a single notification
+            // per poll can return `Pending` further down with no waker registered on this
+            // channel, stalling functions whose predecessors have all been dropped.
+            while let Poll::Ready(Some(fn_id)) = fn_done_rx.poll_recv(context) {
+                graph_structure
                     .children(fn_id)
                     .iter(graph_structure)
                     .for_each(|(_edge_id, child_fn_id)| {
@@ -228,7 +230,7 @@ impl<F> FnGraph<F> {
                                 let _ = fn_ready_tx.try_send(child_fn_id);
                             }
                         }
-                    }),
+                    });
             }
 
             let poll = if let Some(fn_done_tx) = fn_done_tx.as_ref() {
